@@ -10,8 +10,8 @@ from ..models import frame as F
 
 ID = "C10"
 LEVEL = "exploration"
-TIERS = {"quick": {"shards": 16, "budget_s": 25, "random": 2500, "exh_len": 10},
-         "thorough": {"shards": 16, "budget_s": 420, "random": 120000, "exh_len": 24}}
+TIERS = {"quick": {"shards": 16, "budget_s": 120, "random": 2500, "exh_len": 10},
+         "thorough": {"shards": 16, "budget_s": 900, "random": 120000, "exh_len": 24}}
 RULE = ("Real AudioReader read to exhaustion plus 1-5 further reads, over source kinds (bytes, Buffer/Raw/Wave source objects, "
         "raw/wav files eager and lazy, stdin), widths 1/2/4, 1-3 channels, source lengths 0..k blocks incl. empty and "
         "sub-block, block 1..8 (and 10..160) samples, hop None/==block/<block, max_read None/0/on and off block and sample "
